@@ -1570,7 +1570,7 @@ class Interp:
                     recv.items.append(copy.deepcopy(fill) if fill is not None else
                                       (Fraction(0) if "valarray" in cname else self.default_elem(recv.elem)))
                 return None
-            if meth == "reserve":
+            if meth in ("reserve", "shrink_to_fit"):
                 return None
             if meth == "erase" and args:
                 a = [self.ev(x, env) for x in args]
@@ -1870,6 +1870,13 @@ class Interp:
                 return 2 ** 31 - 1
             if nm == "infinity":
                 return Fraction(10) ** 400
+            if nm in ("min", "lowest"):
+                if "numeric_limits<double>" in cname or "numeric_limits<float>" in cname:
+                    # min() is the smallest POSITIVE normal value; lowest() is -max()
+                    return Fraction(1, 2 ** 1022) if nm == "min" else -(Fraction(2) ** 1023 * (2 - Fraction(1, 2 ** 52)))
+                if "unsigned" in cname:
+                    return 0
+                return -(2 ** 31)
             raise Unsupported("numeric_limits member %s" % cname)
         if nm in ("min", "max"):
             ra = self.bind_ref(args[0], env)
@@ -1957,6 +1964,15 @@ class Interp:
                     if same:
                         return Iter(b.v, i_)
                 return Iter(b.v, e.i)
+        if nm == "copy" and len(args) == 3:
+            b, e, o = self.ev(args[0], env), self.ev(args[1], env), self.ev(args[2], env)
+            if isinstance(b, Iter) and isinstance(e, Iter) and b.v is e.v and isinstance(b.v, Vec) and isinstance(o, Iter) and isinstance(o.v, Vec):
+                src_ = list(b.v.items[b.i:e.i])
+                if o.i + len(src_) > len(o.v.items):
+                    raise AssertFail("std::copy writes past the end of the destination (%d elements into %d)" % (len(src_), len(o.v.items) - o.i))
+                for k_, x in enumerate(src_):
+                    o.v.items[o.i + k_] = vcopy(x, o.v.elem or "")
+                return Iter(o.v, o.i + len(src_))
         if nm == "reverse" and len(args) == 2:
             b, e = self.ev(args[0], env), self.ev(args[1], env)
             if isinstance(b, Iter) and isinstance(e, Iter) and b.v is e.v and isinstance(b.v, Vec):
